@@ -1,7 +1,7 @@
 package walker
 
 // Bounded stand-in for property C13 (labelled bounded; never counted as proved):
-//  - every forward-edge DAG over 5 nodes (quick: every 3rd of the 1024 edge sets), where node 3
+//  - every forward-edge DAG over 5 nodes with links in ascending and in descending order (quick: every 3rd of the 2048 combinations), where node 3
 //    carries an identity-hash CID, with every single node non-local or none: WalkDAG with an exact
 //    tracker emits exactly the depth-first pre-order (children in link order) of the nodes reachable
 //    through local nodes, each once, never an identity CID, never a non-local one; a second walk
@@ -50,15 +50,16 @@ func TestVerifBoundedC13WalkOrder(t *testing.T) {
 		stride = 1
 	}
 	cases, fails := 0, 0
-	for mask := 0; mask < 1<<len(edges); mask += stride {
+	for run := 0; run < 2*(1<<len(edges)); run += stride {
+		mask, descending := run/2, run%2 == 1
 		adj := make([][]int, n)
 		for i, e := range edges {
 			if mask&(1<<i) != 0 {
 				adj[e.a] = append(adj[e.a], e.b)
 			}
 		}
-		// link order: descending index for odd masks, so that order matters
-		if mask%2 == 1 {
+		// every edge set is walked with links in ascending and in descending index order
+		if descending {
 			for a := range adj {
 				for i, j := 0, len(adj[a])-1; i < j; i, j = i+1, j-1 {
 					adj[a][i], adj[a][j] = adj[a][j], adj[a][i]
